@@ -120,6 +120,49 @@ def BodyD(nid: int, src: ty.Any) -> ty.Any:
     return [nid, _canon(src)]
 
 
+@python.define
+def Half(x: int) -> float:
+    """Declared float, returns an int for even x: the stored output is coerced to 3.0."""
+    return x // 2 if x % 2 == 0 else x / 2
+
+
+@python.define
+def Pair(x: int) -> list[int]:
+    """Declared list[int], returns a tuple: the stored output is coerced to a list."""
+    return (x, x + 1)
+
+
+@python.define
+def Describe(v: ty.Any, w: ty.Any) -> str:
+    return "%r:%s %r:%s" % (v, type(v).__name__, w, type(w).__name__)
+
+
+def make_coerce_workflow(nodes):
+    """nodes: [dict(id=0, kind='half', xs=[..]|x=int), dict(id=1, kind='pair', ...), dict(id=2, kind='describe', preds=[0, 1])]"""
+    names = ["o%d" % n["id"] for n in nodes]
+
+    @workflow.define(outputs={nm: ty.Any for nm in names})
+    def VerifCoerceWf(spec: ty.Any):
+        outs = {}
+        for n in spec:
+            n = dict(n)
+            if n["kind"] in ("half", "pair"):
+                cls = Half if n["kind"] == "half" else Pair
+                if n.get("xs") is not None:
+                    t = cls().split(x=list(n["xs"])).combine("x")
+                else:
+                    t = cls(x=n["x"])
+            else:
+                t = Describe(v=outs[n["preds"][0]], w=outs[n["preds"][1]])
+            node = workflow.add(t, name="n%d" % n["id"])
+            outs[n["id"]] = node.out
+        return tuple(outs[dict(m)["id"]] for m in spec)
+
+    spec = tuple(tuple(sorted((k, tuple(v) if isinstance(v, list) else v) for k, v in n.items()))
+                 for n in nodes)
+    return VerifCoerceWf(spec=spec)
+
+
 def make_state_workflow(nodes):
     """nodes: [dict(id, kind='s3', dims=[np, nq, nr], combine=[...]), dict(id, kind='down', preds=[up])]."""
     names = ["o%d" % n["id"] for n in nodes]
@@ -147,6 +190,8 @@ def make_state_workflow(nodes):
 
 
 def make_workflow(nodes, failset=(), dur=()):
+    if any(n.get("kind") in ("half", "pair", "describe") for n in nodes):
+        return make_coerce_workflow(nodes)
     if any(n.get("kind") for n in nodes):
         return make_state_workflow(nodes)
     """nodes: list of dict(id=int, preds=[ids] (<=3), split=None|int).  Split nodes are combined, so
@@ -379,9 +424,9 @@ def run_case(case):
         kw = {}
         if case.get("k") is not None:
             kw["max_concurrent"] = int(case["k"])
-        if mode in ("async", "rerun", "rerun_gen", "state"):
+        if mode in ("async", "rerun", "rerun_gen", "state", "coerce"):
             worker = FakeWorker
-        elif mode in ("sync", "rerun_sync", "state_sync"):
+        elif mode in ("sync", "rerun_sync", "state_sync", "coerce_sync"):
             worker = "debug"
         else:
             worker = "cf"
@@ -390,7 +435,11 @@ def run_case(case):
             with Submitter(worker=worker, cache_root=cache, **kw) as sub:
                 res = sub(wf, raise_errors=True, rerun=rerun)
             obs["outcome"] = "ok"
-            obs["outputs"] = _canon([getattr(res.outputs, "o%d" % n["id"]) for n in case["nodes"]])
+            if mode.startswith("coerce"):
+                # the exact Python values and types matter here (3 vs 3.0, tuple vs list)
+                obs["outputs"] = [repr(getattr(res.outputs, "o%d" % n["id"])) for n in case["nodes"]]
+            else:
+                obs["outputs"] = _canon([getattr(res.outputs, "o%d" % n["id"]) for n in case["nodes"]])
             if rerun and mode != "rerun":
                 obs["generations"] = sorted(_gens(obs["outputs"], set()))
         except Exception as e:  # noqa
